@@ -84,7 +84,7 @@ def c08a(ctx, tu):
 
 # ------------------------------------------------------------------------------- C08.b
 def c08b(ctx, tu):
-    protocol.report(ctx, tu, lambda r: r == "C08.b")
+    protocol.report(ctx, tu, lambda r: True)   # the whole step protocol is a premise of this property
     for fn in tu.need(A["run_actions"], 5):
         l = None
         for lp in cfg.loops(fn):
